@@ -187,12 +187,18 @@ pub fn build(prop: &str, seed: u64, hist: u64, rng: &mut Rng, ids: &[String]) ->
         "C20" if rng.chance(20) => crate::script3::gen_maps(rng, np),
         "C03" | "C07" | "C09" | "C10" | "C04" if rng.chance(5) => crate::script3::gen_maps(rng, np),
         "C12" if rng.chance(50) => crate::script3::gen_c12(rng, np),
+        "C15" if rng.chance(35) => crate::script3::gen_c15(rng, np),
         "C13" if hist % 331 == 5 => crate::script3::gen_c13_limit(rng, np),
         "C13" => script::gen_c13(rng, np),
         "C11" if rng.chance(12) => crate::script3::gen_maps(rng, np),
         "C11" if rng.chance(70) => crate::script2::gen_c11(rng, np),
         _ => script::generate(rng, np, &flags, depth),
     };
+    let mut ast = ast;
+    if prop == "C15" && rng.chance(50) {
+        // repeated content ids in one peer's result multiset (C15 compares multisets, not sets)
+        crate::script3::alias_calls(&mut ast, rng);
+    }
     let script_text = script::render(&ast, ids);
     // service faults: drawn once per scenario (services stay deterministic within a history)
     if profile.contains("garbage") {
